@@ -947,7 +947,9 @@ impl Check for C18 {
          optionally one re-entering host call (re0/re1/re2 -> run_function) whose callee is a script function returning a chosen \
          parameter / returning early / returning nothing, a closure capturing and writing caller locals, a native-function value, \
          a failing callee, a callee that spins until the budget expires, or a callee that re-enters twice more; half of the cases \
-         with a collection at every allocation point. A case is non-trivial if a host stub ran; distinct = distinct workload hash."
+         with a collection at every allocation point. One re-entering call in three goes through a host function that swallows \
+         its callee's failure (try0/1/2); callees also include a native value failing in its parameter conversion; one case in \
+         five with a call stack of depth+1..depth+5 frames. A case is non-trivial if a host stub ran; distinct = distinct workload hash."
             .to_string()
     }
     fn cases(&self, tier: Tier) -> u64 {
